@@ -7,7 +7,7 @@ CONSTANTS
   MaxLevel = 3
   Mirror = FALSE
   Cache = "flush"
-  InitSet = "chains"
+  InitSet = "diag"
   SimK = 0
 CONSTRAINT LevelBound
 VIEW view
